@@ -237,8 +237,9 @@ class Tup(Shape):
 class Obj(Shape):
   """Instance with named fields.  `make` (optional) builds a real Python object for replays from
   a dict of concrete field values; the default is a SimpleNamespace."""
-  def __init__(self, cls_name, make=None, real_cls=None, **fields):
+  def __init__(self, cls_name, make=None, real_cls=None, consts=None, **fields):
     self.cls_name, self.fields, self.make, self.real_cls = cls_name, fields, make, real_cls
+    self.consts = dict(consts or {})     # fields holding fixed (non-symbolic) values / models
   def __repr__(self): return "Obj(%s)" % self.cls_name
   def sorts(self): return [s for f in self.fields.values() for s in f.sorts()]
   def suffixes(self):
@@ -252,6 +253,7 @@ class Obj(Shape):
     for k, f in self.fields.items():
       n = len(f.sorts())
       out[k] = f.build(ls[i:i + n]); i += n
+    out.update(self.consts)
     return ObjVal(self.cls_name, out, self.real_cls)
   def wf(self, v): return [x for k, f in self.fields.items() for x in f.wf(v.fields[k])]
   def concretize(self, v, model, ev):
